@@ -15,6 +15,12 @@ import (
 // C18 — built-in injectables and context linkage are scope-correct.
 
 func c18Spec(shape string) kit.Spec {
+	s := c18SpecWarm(shape)
+	s.Regs = s.Regs[:9] // (the concurrent scenarios do without the warm-up singleton and its extra watcher thread)
+	return s
+}
+
+func c18SpecWarm(shape string) kit.Spec {
 	in := shape == "in"
 	return kit.Spec{Regs: []kit.Reg{
 		{ID: 0, Life: "singleton", In: in, Outs: []kit.Out{{T: "P0"}}, Deps: []kit.Dep{{T: "ctx"}, {T: "scope"}, {T: "provider"}}},
@@ -28,6 +34,13 @@ func c18Spec(shape string) kit.Spec {
 		{ID: 6, Life: "transient", Outs: []kit.Out{{T: "P5"}}, Deps: []kit.Dep{{T: "provider"}}, Nested: []kit.Dep{{T: "D0"}}},
 		{ID: 7, Life: "transient", In: true, Outs: []kit.Out{{T: "D0"}}, Deps: []kit.Dep{{T: "scope"}, {T: "ctx"}}},
 		{ID: 8, Life: "scoped", In: true, Outs: []kit.Out{{T: "D1"}}, Deps: []kit.Dep{{T: "P5"}, {T: "scope"}, {T: "ctx"}, {T: "provider"}}},
+		// a singleton that, DURING BUILD, warms up through a scope it creates from its injected Provider and asks it
+		// for another singleton that is built later (two dependency levels deeper): whatever that request
+		// returns, the later singleton is constructed on the root scope like every singleton
+		{ID: 9, Life: "singleton", Outs: []kit.Out{{T: "D5"}}, Deps: []kit.Dep{{T: "provider"}}, Nested: []kit.Dep{{T: "D2"}}, NestedInChild: true},
+		{ID: 10, Life: "singleton", In: in, Outs: []kit.Out{{T: "D2"}}, Deps: []kit.Dep{{T: "scope"}, {T: "ctx"}, {T: "D3"}}},
+		{ID: 11, Life: "singleton", Outs: []kit.Out{{T: "D3"}}, Deps: []kit.Dep{{T: "D4"}}},
+		{ID: 12, Life: "singleton", Outs: []kit.Out{{T: "D4"}}},
 	}}
 }
 
@@ -106,6 +119,9 @@ func c18Builtins(e *Env) []Finding {
 	for _, cl := range e.W.Calls {
 		reg := e.reg(cl.Reg)
 		sn := e.ScopeOfCall(cl)
+		if cl.Via == "child" && reg.Life != "singleton" {
+			continue // made for a scope a constructor created and closed itself: the harness holds no handle on it
+		}
 		want := scopeOf(sn)
 		if reg.Life == "singleton" || cl.Via == "provider" {
 			want = rootScope // resolved at Build / through the provider itself
@@ -150,7 +166,7 @@ var c18Gets = []Op{{Kind: "get", T: "P3"}, {Kind: "get", T: "P2"}, {Kind: "get",
 	{Kind: "get", T: "ctx"}, {Kind: "get", T: "scope"}, {Kind: "get", T: "provider"}}
 
 func c18Run(c c18Case) (*Env, []Finding) {
-	spec := c18Spec(c.Shape)
+	spec := c18SpecWarm(c.Shape)
 	e := NewEnv(&spec)
 	e.Build()
 	var out []Finding
@@ -409,7 +425,7 @@ func c18Reserved() []Finding {
 func init() {
 	mc.Register(&mc.Check{
 		Prop:        "C18",
-		Rule:        "scope trees of three scopes under the provider in all 6 parent shapes (chain, star, forks) x per-scope context kind {cancellable with a value, nil, plain with a value, derived from the parent scope's Context(), derived from ANOTHER scope's (s1) Context()} x {positional, In-struct (value and pointer)} consumers x 3 resolution orders (one revisits scopes so caches are hit); services of every lifetime (singleton, scoped, transient, scoped initializer, transient group member, nested transient-inside-scoped, and a parameter-object consumer one of whose dependencies re-entrantly resolves another parameter-object service through the injected Provider) take Context / Scope / Provider; every recorded constructor argument and every direct Get of the three built-ins is compared with the scope the resolution was issued on (singletons: the provider's root scope), its Context(), FromContext of the injected context, and the root provider; context values, FromContext on the scope context and on a derived context, Scope.Provider(), synchronous cancellation propagation along the context ancestry (and non-propagation to unrelated scopes, which must stay usable after the watchers ran) are checked per scope; concurrent part (8 scenarios quick / 16 thorough): two goroutines resolving built-in consumers in two different scopes (siblings, parent/child, provider/scope) and scope creation (scoped initializer taking the built-ins) against a resolution, every schedule within the preemption bound (2 quick / 3 thorough; one less for the deep consumer), same injected-built-in oracle plus race/panic/deadlock detection; 21 registration routes for the three reserved types (plain, keyed, grouped, alias, extra return, result-object field, module entry - and the grouped variant of every batch form) must fail and leave the collection unchanged. distinct = canonical observation strings.",
+		Rule:        "scope trees of three scopes under the provider in all 6 parent shapes (chain, star, forks) x per-scope context kind {cancellable with a value, nil, plain with a value, derived from the parent scope's Context(), derived from ANOTHER scope's (s1) Context()} x {positional, In-struct (value and pointer)} consumers x 3 resolution orders (one revisits scopes so caches are hit); services of every lifetime (singleton, scoped, transient, scoped initializer, transient group member, nested transient-inside-scoped, a parameter-object consumer one of whose dependencies re-entrantly resolves another parameter-object service through the injected Provider, and a singleton that during Build requests a not-yet-built singleton through a scope it creates itself) take Context / Scope / Provider; every recorded constructor argument and every direct Get of the three built-ins is compared with the scope the resolution was issued on (singletons: the provider's root scope), its Context(), FromContext of the injected context, and the root provider; context values, FromContext on the scope context and on a derived context, Scope.Provider(), synchronous cancellation propagation along the context ancestry (and non-propagation to unrelated scopes, which must stay usable after the watchers ran) are checked per scope; concurrent part (8 scenarios quick / 16 thorough): two goroutines resolving built-in consumers in two different scopes (siblings, parent/child, provider/scope) and scope creation (scoped initializer taking the built-ins) against a resolution, every schedule within the preemption bound (2 quick / 3 thorough; one less for the deep consumer), same injected-built-in oracle plus race/panic/deadlock detection; 21 registration routes for the three reserved types (plain, keyed, grouped, alias, extra return, result-object field, module entry - and the grouped variant of every batch form) must fail and leave the collection unchanged. distinct = canonical observation strings.",
 		Assume:      []string{"cancellation is observed synchronously (context.WithCancel semantics)"},
 		MinOutcomes: 4,
 		Jobs: func(tier string) []mc.Job {
